@@ -532,6 +532,9 @@ func c07ReplayStates(t *testing.T, rep *kit.Report, w *c07World, b kit.V, key st
 				admittedDup = true
 			}
 			rep.Count("deliver_"+kind, 1)
+			if now > before && c07StateIndex(mem.cur) == 2 {
+				rep.Count("admitted_in_silent_state", 1) // a faster peer's message kept by the silent symmetric-key state
+			}
 			if now > before {
 				rep.Count("admitted", 1)
 			} else {
